@@ -33,6 +33,7 @@ structure ImmState where
   files : List File
   clock : Nat
   stored : List Nat        -- versions passed to Store so far
+  pending : List (Nat × Nat) := []   -- CleanEntry in progress: packages (id, mtime) its listing told it to remove
   deriving Repr, Inhabited
 
 inductive ImmEv
@@ -41,7 +42,9 @@ inductive ImmEv
   | finishPart (id v : Nat)          -- the copy is complete (still `.part`)
   | failVerify (id : Nat)            -- hash mismatch: the part file is removed
   | rename (id : Nat)                -- `.part` dropped: only after the hashes matched
-  | clean                            -- CleanEntry: keep the newest complete package only
+  | clean                            -- CleanEntry in one step: keep the newest complete package only
+  | cleanList                        -- CleanEntry, first half: ONE listing; everything complete but the newest is to go
+  | cleanRemove (id m : Nat)         -- CleanEntry, second half: one of the packages of that listing is removed
   deriving Repr, DecidableEq, Inhabited
 
 /-- keep the newer of the candidate so far and the next file -/
@@ -77,6 +80,12 @@ def immStep (s : ImmState) : ImmEv → Option ImmState
     match newest s.files with
     | some n => some { s with files := s.files.filter fun f => f.part || f.id = n.id }
     | none => some s
+  | .cleanList =>
+    match newest s.files with
+    | some n => some { s with pending := s.pending ++ ((s.files.filter fun f => !f.part && f.id != n.id).map fun f => (f.id, f.mtime)) }
+    | none => some s
+  | .cleanRemove id m =>
+    if (id, m) ∈ s.pending then some { s with files := s.files.filter fun f => !(f.id = id ∧ f.mtime = m ∧ !f.part) } else none
 
 def immRun : ImmState → List ImmEv → Option ImmState
   | s, [] => some s
